@@ -15,7 +15,7 @@ import sys
 from fractions import Fraction
 
 from harness import gen
-from harness.common import REPO, VERIF, Result, Violation, canon_vals, compare, impl, kind_of, quiet, run_driver, tempdir
+from harness.common import REPO, VERIF, Result, Violation, canon_vals, compare, impl, kind_of, quiet, run_driver, tempdir, worker_copy
 from harness.sched import run_schedule
 from harness.suite_grid import check_values, encode_space, encode_values, same
 
@@ -127,7 +127,7 @@ def scenario_random(sseed):
                     lines.append(dict(suite="sampling", op="end", id=int(t.trial_id), status=t.status))
                     shim.log.clear()
                     try:
-                        quiet(o.end_trial, t)
+                        quiet(o.end_trial, worker_copy(R, t))
                         expect.append("ok | " + st(o))
                     except RuntimeError as e:
                         if "consecutive" not in str(e):
